@@ -53,6 +53,10 @@ fn main() {
     if let Err(e) = refchess::self_test(false) { eprintln!("harness error: {}", e); std::process::exit(2); }
     mon::install();
     let opts = props::Opts { tier, seed, replay, part };
-    let code = props::run(&id, &opts);
+    // a panic of the harness itself (engine panics are caught where they are judged) is a harness problem
+    let code = match std::panic::catch_unwind(|| props::run(&id, &opts)) {
+        Ok(c) => c,
+        Err(e) => { println!("harness error: the harness itself panicked at {}: {}", par::last_panic_location(), par::panic_text(e)); 2 }
+    };
     std::process::exit(code);
 }
